@@ -1,5 +1,6 @@
 import RgVerif.Spec.ReplaceAll
 import RgVerif.Model.Replace
+import RgVerif.Driver.C19Multi
 namespace RgVerif.Driver.C19
 open RgVerif RgVerif.Interp RgVerif.ReplaceSpec RgVerif.Matcher RgVerif.Replace
 
@@ -76,6 +77,8 @@ def handle (cmd : String) (args : List Sx) : String :=
       let st := replaceAllLine lt (fun _ pos => (tab[pos]?).join) names hay rs re t
       (toHex st.dst ++ " " ++ showSpans st.spans).trimAscii.toString
     | _, _, _, _, _, _, _ => "bad-op"
-  | _, _ => "bad-op"
+  | _, _ =>
+    -- multi-line replacement ops (`c19.ml…`) are served by the multi-line model's own handler
+    if cmd.startsWith "c19.ml" then RgVerif.Driver.C19Multi.handle cmd args else "bad-op"
 
 end RgVerif.Driver.C19
